@@ -33,9 +33,11 @@ class DecoratorHelper:
 		join_args = decorator[args_begin + 1:len(decorator) - 1]
 		args: dict[str, str] = {}
 		for index, arg in enumerate(BlockParser.break_separator(join_args, ',')):
-			if arg.count('=') > 0:
-				label, *remain = arg.split('=')
-				args[label] = '='.join(remain)
+			label_value = BlockParser.break_separator(arg, '=')
+			if len(label_value) > 1:
+				# ラベルは最初のトップレベルの'='まで。括弧・文字列内の'='はラベルの区切りではない (例: `g(k=1)`, `"a=b"`)
+				assign_at = arg.index('=', arg.index(label_value[0]) + len(label_value[0]))
+				args[arg[:assign_at]] = arg[assign_at + 1:]
 			else:
 				args[str(index)] = arg
 
